@@ -158,6 +158,71 @@ async fn run(name: &str) -> Result<(), String> {
             println!("INFO ignore_rule_bounded: {configs} configurations, {checked} verdicts");
             Ok(())
         }
+        // C20 (BOUNDED: every documented marker x {file, directory} x 4 levels of one chain, plus all pairs of 8 markers at two levels): origins() and
+        // types() on the real crate equal the documented tables
+        "origins_markers_bounded" => {
+            use project_origins::{origins, types, ProjectType as T};
+            use std::collections::HashSet;
+            // (name, is a directory marker, type reported by types() if any) -- transcribed from the documentation of ProjectType / origins()
+            let markers: Vec<(&str, bool, Option<T>)> = vec![
+                ("_darcs", true, Some(T::Darcs)), (".bzr", true, Some(T::Bazaar)), (".fossil-settings", true, Some(T::Fossil)), (".git", true, Some(T::Git)), (".github", true, None),
+                (".hg", true, Some(T::Mercurial)), (".svn", true, Some(T::Subversion)),
+                (".asf.yaml", false, None), (".bzrignore", false, Some(T::Bazaar)), (".codecov.yml", false, None), (".ctags", false, Some(T::C)), (".editorconfig", false, None),
+                (".git", false, Some(T::Git)), (".gitattributes", false, Some(T::Git)), (".gitmodules", false, Some(T::Git)), (".hgignore", false, Some(T::Mercurial)), (".hgtags", false, Some(T::Mercurial)),
+                (".perltidyrc", false, Some(T::Perl)), (".travis.yml", false, None), ("appveyor.yml", false, None), ("build.gradle", false, Some(T::Gradle)), ("build.properties", false, None),
+                ("build.xml", false, None), ("Cargo.toml", false, Some(T::Cargo)), ("Cargo.lock", false, None), ("cgmanifest.json", false, Some(T::JavaScript)), ("CMakeLists.txt", false, None),
+                ("composer.json", false, Some(T::PHP)), ("COPYING", false, None), ("docker-compose.yml", false, None), ("Dockerfile", false, Some(T::Docker)), ("Gemfile", false, Some(T::Bundler)),
+                ("LICENSE.txt", false, None), ("LICENSE", false, None), ("Makefile.am", false, None), ("Makefile.pl", false, None), ("Makefile.PL", false, Some(T::Perl)), ("Makefile", false, None),
+                ("mix.exs", false, Some(T::Elixir)), ("moonshine-dependencies.xml", false, None), ("package.json", false, Some(T::JavaScript)), ("package-lock.json", false, None),
+                ("pnpm-lock.yaml", false, None), ("yarn.lock", false, None), ("pom.xml", false, Some(T::Maven)), ("project.clj", false, Some(T::Leiningen)), ("requirements.txt", false, Some(T::Pip)),
+                ("v.mod", false, Some(T::V)), ("CONTRIBUTING.md", false, None), ("go.mod", false, Some(T::Go)), ("go.sum", false, Some(T::Go)), ("Pipfile", false, Some(T::Pip)), ("build.zig", false, Some(T::Zig)),
+            ];
+            let chain: Vec<PathBuf> = vec![root.join("c0"), root.join("c0/c1"), root.join("c0/c1/c2"), root.join("c0/c1/c2/c3")];
+            let leaf = chain[3].clone();
+            let reset = |chain: &Vec<PathBuf>| { let _ = std::fs::remove_dir_all(&chain[0]); std::fs::create_dir_all(&chain[3]).unwrap();
+                // a non-marker entry in each directory: an origin needs a marker, not just a non-empty directory
+                for d in chain.iter() { std::fs::write(d.join("README.rst"), "x").unwrap(); } };
+            reset(&chain);
+            // whatever lies above the scratch tree (/tmp, /) is outside this experiment: measured once on the marker-free chain
+            let baseline: HashSet<PathBuf> = origins(&leaf).await;
+            if baseline.iter().any(|p| chain.contains(p)) { return Err(format!("a chain without any marker has origins inside it: {baseline:?}")); }
+            let place = |dir: &Path, name: &str, as_dir: bool| { let p = dir.join(name); if as_dir { std::fs::create_dir_all(&p).unwrap(); } else { std::fs::write(&p, "x").unwrap(); } };
+            let is_marker = |name: &str, as_dir: bool| markers.iter().any(|(n, d, _)| *n == name && *d == as_dir);
+            let types_of = |placed: &[(&str, bool)]| -> HashSet<T> { placed.iter().flat_map(|(n, d)| markers.iter().filter(move |(mn, md, _)| mn == n && md == d).filter_map(|(_, _, t)| *t)).collect() };
+            let mut cases = 0usize;
+            let names: Vec<&str> = { let mut v: Vec<&str> = markers.iter().map(|m| m.0).collect(); v.dedup(); v };
+            for name in &names { for as_dir in [false, true] { for level in 0..4 {
+                reset(&chain);
+                place(&chain[level], name, as_dir);
+                let got = origins(&leaf).await;
+                let mut want = baseline.clone(); if is_marker(name, as_dir) { want.insert(chain[level].clone()); }
+                cases += 1;
+                if got != want { return Err(format!("a {} named {name} in {}: origins({}) = {:?}, expected {:?}", if as_dir { "directory" } else { "file" }, chain[level].display(), leaf.display(), got, want)); }
+                // started higher up, a marker below the start is never reported
+                if level > 0 { let got = origins(&chain[level - 1]).await; if got != baseline { return Err(format!("a marker {name} below the start directory was reported: {got:?}")); } }
+                let gt = types(&chain[level]).await; let wt = types_of(&[(name, as_dir)]);
+                if gt != wt { return Err(format!("a {} named {name}: types() = {gt:?}, expected {wt:?}", if as_dir { "directory" } else { "file" })); }
+            }}}
+            // pairs: several markers in one directory and markers at two levels
+            let some = [(".git", true), (".git", false), ("Cargo.toml", false), ("Cargo.toml", true), (".hgtags", false), ("go.sum", false), (".svn", true), ("LICENSE", false)];
+            for a in some { for b in some { if a.0 == b.0 { continue; }
+                reset(&chain);
+                place(&chain[1], a.0, a.1); place(&chain[1], b.0, b.1); place(&chain[3], b.0, b.1);
+                let got = origins(&leaf).await;
+                let mut want = baseline.clone();
+                if is_marker(a.0, a.1) || is_marker(b.0, b.1) { want.insert(chain[1].clone()); }
+                if is_marker(b.0, b.1) { want.insert(chain[3].clone()); }
+                cases += 1;
+                if got != want { return Err(format!("{a:?} and {b:?} in c1, {b:?} in c3: origins = {got:?}, expected {want:?}")); }
+                let gt = types(&chain[1]).await; let wt = types_of(&[a, b]);
+                if gt != wt { return Err(format!("{a:?} and {b:?} in one directory: types() = {gt:?}, expected {wt:?}")); }
+            }}
+            for t in [T::Bazaar, T::Darcs, T::Fossil, T::Git, T::Mercurial, T::Pijul, T::Subversion, T::Bundler, T::C, T::Cargo, T::Docker, T::Elixir, T::Gradle, T::JavaScript, T::Leiningen, T::Maven, T::Perl, T::PHP, T::Pip, T::V, T::Zig, T::Go] {
+                if t.is_vcs() == t.is_soft() { return Err(format!("{t:?}: is_vcs = {}, is_soft = {}", t.is_vcs(), t.is_soft())); }
+            }
+            println!("INFO origins_markers_bounded: {cases} placements");
+            Ok(())
+        }
         // test/.gitignore re-includes *.rs; that negation must not leak into the sibling tests/ whose name has test as a textual prefix
         "prefix_sibling_negation" => {
             std::fs::write(root.join(".gitignore"), "*.rs\n").unwrap();
